@@ -18,13 +18,115 @@ from harness.core import enc_str, dec_str
 
 PROPERTY = "C08"
 READY = True
-THEOREMS = []        # filled below (kept in file order of lean/AkVerif/Props/C08.lean)
+THEOREMS = [
+    "C08.pySlice_spec",
+    "C08.pySlice_cases",
+    "C08.pyIndex_spec",
+    "C08.canon",
+    "C08.len",
+    "C08.canon_repr",
+    "C08.iadd_cells",
+    "C08.construct_cells",
+    "C08.add_cells",
+    "C08.join_cells",
+    "C08.slice_cells",
+    "C08.index_cells",
+    "C08.fixedLen_cells",
+    "C08.chunk_ops_cells",
+    "C08.format_cells",
+    "C08.format_plain",
+    "C08.eq_iff",
+    "C08.eq_str_iff",
+    "C08.eq_chunk_iff",
+    "C08.chunk_eq_iff",
+    "C08.eval_refines",
+    "C08.reachable_canon",
+    "C08.eval_observe",
+]
 
 # opt-in stream: operands that are the *same object* (`t += t`, `u = t.fixed_len(len(t)); u += x`).
 # Off by default: see FINDINGS in the report / KNOWN below.
 ALIASING = os.environ.get("C08_ALIASING", "") not in ("", "0")
 
 ESC = "\033"
+
+# ------------------------------------------------------------------ translator
+def _method(cls, name):
+    for n in cls.body:
+        if isinstance(n, ast.FunctionDef) and n.name == name:
+            return n
+    raise ValueError("method %s.%s not found" % (cls.name, name))
+
+
+def _one(values, what):
+    vals = set(values)
+    if len(vals) != 1:
+        raise ValueError("%s: expected exactly one value, found %r" % (what, sorted(vals)))
+    return vals.pop()
+
+
+def _is_char(x):
+    return isinstance(x, ast.Constant) and isinstance(x.value, str) and len(x.value) == 1
+
+
+def translate(repo):
+    """constants of CHText.__format__ / fixed_len: align characters, defaults, type character, pad"""
+    tree = ast.parse(open(os.path.join(repo, "ak", "color.py")).read())
+    classes = {n.name: n for n in tree.body if isinstance(n, ast.ClassDef)}
+    fmt = _method(classes["CHText"], "__format__")
+    tuples, default_align, type_chars, default_fill, fill_pos, cmp_align = [], [], [], [], [], []
+    for n in ast.walk(fmt):
+        if isinstance(n, ast.Tuple) and n.elts and all(_is_char(e) for e in n.elts):
+            tuples.append(tuple(e.value for e in n.elts))
+        if isinstance(n, ast.Assign) and len(n.targets) == 1 and isinstance(n.targets[0], ast.Name):
+            if n.targets[0].id == "align_char" and _is_char(n.value):
+                default_align.append(n.value.value)
+            if n.targets[0].id == "filler_ch" and isinstance(n.value, ast.IfExp) and _is_char(n.value.orelse):
+                default_fill.append(n.value.orelse.value)
+                t = n.value.test
+                if isinstance(t, ast.Compare) and len(t.ops) == 1 and isinstance(t.ops[0], ast.Eq) and \
+                        isinstance(t.comparators[0], ast.Constant):
+                    fill_pos.append(t.comparators[0].value)
+        if isinstance(n, ast.Compare) and isinstance(n.left, ast.Name) and len(n.ops) == 1 and _is_char(n.comparators[0]):
+            if n.left.id == "last_ch" and isinstance(n.ops[0], ast.NotEq):
+                type_chars.append(n.comparators[0].value)
+            if n.left.id == "align_char" and isinstance(n.ops[0], ast.Eq):
+                cmp_align.append(n.comparators[0].value)
+    aligns = _one([tuple(sorted(t)) for t in tuples], "align character tuples of __format__")
+    if _one(fill_pos, "position of the align character that makes the first character the fill") != 1:
+        raise ValueError("fill is no longer taken when the align character is at position 1")
+    if len(cmp_align) != 2:
+        raise ValueError("expected two comparisons align_char == <char> (left, right), found %r" % (cmp_align,))
+    pads = []
+    for cls, meth in (("CHText", "fixed_len"), ("_CHTextChunk", "fixed_len")):
+        for n in ast.walk(_method(classes[cls], meth)):
+            if isinstance(n, ast.BinOp) and isinstance(n.op, ast.Mult) and _is_char(n.left):
+                pads.append(n.left.value)
+    if len(pads) != 2:
+        raise ValueError("expected one '<char> * n' padding in each fixed_len, found %r" % (pads,))
+    consts = {
+        "alignChars": None,
+        "defaultAlign": _one(default_align, "default align"),
+        "leftAlign": cmp_align[0],
+        "rightAlign": cmp_align[1],
+        "typeChar": _one(type_chars, "format type character"),
+        "defaultFill": _one(default_fill, "default fill"),
+        "padChar": _one(pads, "pad character of fixed_len"),
+    }
+    out = ["-- GENERATED by harness/c08.py:translate from /repo/ak/color.py (CHText.__format__, fixed_len) -- do not edit",
+           "namespace Gen.C08",
+           "/-- the characters `__format__` takes for an align character (sorted) -/",
+           "def alignChars : List Char := [%s]" % ", ".join("Char.ofNat %d" % ord(c) for c in aligns)]
+    doc = {"defaultAlign": "align of a spec without align character", "leftAlign": "`align_char == ...`: pad on the right",
+           "rightAlign": "`align_char == ...`: pad on the left (any other align character centres)",
+           "typeChar": "the only format type accepted", "defaultFill": "fill of a spec without fill character",
+           "padChar": "`fixed_len` pads with this character"}
+    for k, v in consts.items():
+        if v is not None:
+            out += ["/-- %s -/" % doc[k], "def %s : Char := Char.ofNat %d" % (k, ord(v))]
+    out += ["end Gen.C08", ""]
+    return {"AkVerif/Gen/C08.lean": "\n".join(out)}
+
 
 # ------------------------------------------------------------------ colours
 # palette index = colour id of the protocol; 0 is the plain chunk.
